@@ -76,29 +76,15 @@ func prop(t *rapid.T) {
 			mixed = true
 		}
 	}
-	// how the index session goes: flush after every event (the consensus flow, with the no-op DropNotFlushed that
-	// follows there), several events per flush, several flushes without anything in between, and now and then a
-	// reload of everything from the database (DropNotFlushed, Reset over the same database, a new index object)
-	flushEvery := rapid.SampledFrom([]int{1, 1, 2, 3, 7}).Draw(t, "flushEvery")
-	reloads := 0
+	// how the index session goes: see vidx.Session
+	sess := vidx.DrawSession(t, "session")
 	for step, i := range order {
-		if err := x.AddNoFlush(i); err != nil {
+		replaced, err := x.AddS(t, sess, i, step == len(order)-1)
+		if err != nil {
 			t.Fatalf("Add(e%d): %v", i, err)
 		}
-		if step%flushEvery == flushEvery-1 || step == len(order)-1 {
-			x.Idx.Flush()
-			switch rapid.SampledFrom([]int{0, 0, 0, 0, 1, 1, 2, 3}).Draw(t, "afterFlush") {
-			case 1:
-				x.Idx.DropNotFlushed()
-				reloads++
-			case 2:
-				x.ResetSameDB()
-				reloads++
-			case 3:
-				x.Reopen()
-				ad = &adapters.VectorToDagIndexer{Index: x.Idx}
-				reloads++
-			}
+		if replaced {
+			ad = &adapters.VectorToDagIndexer{Index: x.Idx}
 		}
 		if len(x.Crits) > 0 {
 			t.Fatalf("crit after Add(e%d): %v", i, x.Crits)
@@ -118,8 +104,8 @@ func prop(t *rapid.T) {
 	if forkEntries > 0 {
 		classes = append(classes, "fork_observed")
 	}
-	classes = append(classes, fmt.Sprintf("flush_every_%d", flushEvery))
-	if reloads > 0 {
+	classes = append(classes, fmt.Sprintf("flush_every_%d", sess.FlushEvery))
+	if sess.Reloads > 0 {
 		classes = append(classes, "reloaded_from_db")
 	}
 	st.Case(stats.Hash(scen.Describe(ref), ref.Weights), mixed, classes...)
